@@ -74,6 +74,32 @@ def main():
         except Exception as ex:  # noqa: BLE001
             case["status"] = type(ex).__name__
         cases.append(case)
+    # traveltime grids built directly, with ONE sample along an axis: `_vinterp2d/_vinterp3d` are the two kernels that ask
+    # for bounds checking in their own decorator (`boundscheck=True`); on such an axis their far-face branch subscripts
+    # `x[-2]`, which is an IndexError in the Python source - and must be one in the compiled build (same exception type)
+    from fteikpy import TraveltimeGrid2D, TraveltimeGrid3D
+    for it in range(max(4, a.n // 5)):
+        rs = np.random.RandomState((a.seed * 100003 + 7919 * (it + 1)) % (2 ** 32))
+        nd = 2 + it % 2
+        shape = [int(rs.randint(2, 4)) for _ in range(nd)]
+        shape[int(rs.randint(nd))] = 1
+        d = [float(rs.choice([0.5, 1.0, 2.0])) for _ in range(nd)]
+        o = [float(rs.choice([0.0, -1.5, 3.0])) for _ in range(nd)]
+        g = 1.0 + rs.rand(*shape)
+        hi = [o[k] + d[k] * (shape[k] - 1) for k in range(nd)]
+        src = np.array([o[k] + rs.rand() * (hi[k] - o[k]) for k in range(nd)])
+        pt = np.array([o[k] + rs.rand() * (hi[k] - o[k]) for k in range(nd)])
+        many = bool(it % 4 >= 2)
+        desc = {"nd": nd, "cells": shape, "d": d, "o": o, "kind": "direct-one-sample-axis", "src": src.tolist(), "scls": "direct",
+                "v_hex": hx(g), "point": pt.tolist(), "list_call": many}
+        case = {"desc": desc, "status": "ok", "values": {}}
+        try:
+            T = (TraveltimeGrid2D if nd == 2 else TraveltimeGrid3D)(g, d, o, src, None, 1.0)
+            r = T(np.array([pt, pt])) if many else T(pt)
+            case["values"]["direct_tt_at_point"] = hx(r)
+        except Exception as ex:  # noqa: BLE001
+            case["status"] = type(ex).__name__
+        cases.append(case)
     with open(a.out, "w") as f:
         json.dump({"cases": cases}, f)
 
